@@ -109,7 +109,10 @@ func vfc49Keys(rng *rand.Rand, n int) []string {
 	var out []string
 	for len(out) < n {
 		var k string
-		switch rng.Intn(3) {
+		switch rng.Intn(4) {
+		case 3:
+			// long keys (memcached allows 250 bytes; cache keys with long matchers get there): 100..300 bytes
+			k = fmt.Sprintf("L:%d:", rng.Intn(50)) + strings.Repeat("m", 95+rng.Intn(200)) + fmt.Sprintf(":%d", rng.Intn(1000))
 		case 0:
 			k = vfkit.Str(rng, 6, false)
 		case 1:
@@ -130,7 +133,7 @@ func TestVF_C49(t *testing.T) {
 	r := vfkit.Start(t, "C49")
 	defer r.Finish()
 	nKeys := r.N(1500, 600)
-	r.Rule(fmt.Sprintf("case = a list of 1..16 literal memcached addresses (IPv4 statefulset-like with numbers crossing 9->10 / subnets+ports / IPv6 / unix sockets / mixed; 1 in 3 lists with 1..3 addresses listed twice, as identical strings or as another IPv6 spelling that sorts elsewhere) x %d distinct keys; "+
+	r.Rule(fmt.Sprintf("case = a list of 1..16 literal memcached addresses (IPv4 statefulset-like with numbers crossing 9->10 / subnets+ports / IPv6 / unix sockets / mixed; 1 in 3 lists with 1..3 addresses listed twice, as identical strings or as another IPv6 spelling that sorts elsewhere) x %d distinct keys (1 in 4 of them 100..300 bytes long); "+
 		"oracle: PickServer(k) is a configured address, PickServerForKeys lists every key exactly once under PickServer(k), two more permutations of the list give the same answers, "+
 		"after SetServers(list + one new listing, possibly of an address already listed) every key stays or moves to the added listing's address; distinct = hash of the list + new address; non-trivial = >= 2 servers", nKeys))
 	n := r.N(300, 5000) // SetServers (regexp natural sort) dominates under -race: ~0.15 s per list
